@@ -66,6 +66,9 @@ def sys_instr_task(task):
         ns = 1 if mode == 26 else (rnd.getrandbits(1) if ext[0] else 0)
         st['sys']['SCR'] = limbs(((rnd.getrandbits(10) & ~1) | ns) if ext[0] else 0)
         st['sys']['SCTLR'] = limbs((C.unlimbs(g.base['sys']['SCTLR']) & ~(1 << 27)) | (rnd.getrandbits(1) << 27) | (1 << 22))
+        if ext[1]:
+            # HCR.TWI / TWE / TSC: WFI, WFE and SMC executed in Non-secure PL1&0 are trapped to Hyp mode
+            st['sys']['HCR'] = limbs((rnd.getrandbits(1) << 13) | (rnd.getrandbits(1) << 14) | (rnd.getrandbits(1) << 19))
         for m in st['spsr']:
             v = rand32(rnd)
             st['spsr'][m] = limbs((v & ~0x1F) | rnd.choice(MODES_BY_EXT[ext] + [0, 21]))
